@@ -406,11 +406,14 @@ func nonNeg(v ssa.Value, depth int, seen map[ssa.Value]bool) bool {
 			}
 			for ifi, outcome := range controllingConds(x.Block()) {
 				bo, ok := ifi.Cond.(*ssa.BinOp)
-				if !ok || bo.X != x.X {
+				if !ok || !(bo.X == x.X || sameContainer(bo.X, x.X)) {
 					continue
 				}
 				if c2, ok := constInt(bo.Y); ok {
 					if (bo.Op == token.GTR && outcome && c2 >= k-1) || (bo.Op == token.GEQ && outcome && c2 >= k) {
+						return true
+					}
+					if (bo.Op == token.LEQ && !outcome && c2 >= k-1) || (bo.Op == token.LSS && !outcome && c2 >= k) {
 						return true
 					}
 				}
